@@ -12,7 +12,7 @@ PROPERTY = "C14"
 TECHNIQUE = ("differential oracles on Hypothesis-generated batches: VmapWrapper slice i vs unwrapped call on element i; "
              "VmapAutoResetWrapper vs VmapWrapper(AutoResetWrapper) step by step with staggered terminations; render of "
              "both wrappers with an identity render")
-RULE = ("cases = (env, short-episode entry, next_obs flag, batch size 1..6, per-element keys, per-element 18-step plans with "
+RULE = ("cases = (env, short-episode entry, next_obs flag, batch size 1..6 plus a few batches of 129-257, per-element keys, per-element 18-step plans with "
         "illegal/raw actions so that none/some/all elements end on a step - histogram in evidence); oracles: per-index "
         "equality with unwrapped execution, step-by-step equality of the two auto-reset compositions, render returns "
         "element 0; non-trivial = steps on which a strict non-empty subset of the batch resets, distinct by "
@@ -149,6 +149,12 @@ def work_items(tier, flt):
                 items.append({"env": env, "entry": entry, "flag": flag, "B": B,
                               "n": max(2, int((8 if tier == "quick" else 30) * scale)),
                               "cost": {"BinPack": 9, "MMST": 9, "PacMan": 5, "Connector": 3}.get(env, 1) * (1 + B / 6)})
+    # "batch sizes 1..N": a few large batches as well (size-dependent code paths, e.g. a sparse-reset fast path)
+    big = [("Snake", 130, True), ("Knapsack", 257, False)] if tier == "quick" else \
+        [("Snake", 130, True), ("Knapsack", 257, False), ("Game2048", 200, True), ("Maze", 160, False), ("Tetris", 129, False)]
+    for env, B, flag in big:
+        if envs.select_envs([env], flt):
+            items.append({"env": env, "entry": SHORT_ENTRY[env], "flag": flag, "B": B, "n": 2, "cost": 6})
     return items
 
 
